@@ -12,6 +12,9 @@ func (g *pgen) corpus(focus string, start int) []*ConvSpec {
 	if focus == "c05" || focus == "c04" {
 		return g.corpusSettings(start)
 	}
+	if focus == "c03" {
+		return g.corpusC03(start)
+	}
 	if focus != "c11" {
 		return nil
 	}
@@ -127,5 +130,26 @@ func (g *pgen) corpusSettings(start int) []*ConvSpec {
 	c3 := &ConvSpec{Name: fmt.Sprintf("C%d", start+2), SamePkg: true}
 	c3.Methods = []*MethodSpec{{Name: "M0", Src: tNamed(s3), Tgt: tNamed(t3), Lines: []string{"ignoreUnexported", "map X y"}, Fields: map[string]*fieldSet{"y": {Source: "X"}}}}
 	out = append(out, c1, c2, c3)
+	return out
+}
+
+// corpusC03: conversions that must be refused although a lenient setting is on (ignoreMissing does not excuse an
+// ambiguous match; no rule for a pointer source without the flag at a nested position; basic kinds must agree).
+func (g *pgen) corpusC03(start int) []*ConvSpec {
+	var out []*ConvSpec
+	add := func(sf, tf []Field, lines []string, mlines []string) {
+		s := g.newNamed(1, &Ty{K: "struct", Pkg: 1, Fields: sf}, "S")
+		t := g.newNamed(1, &Ty{K: "struct", Pkg: 1, Fields: tf}, "T")
+		c := &ConvSpec{Name: fmt.Sprintf("C%d", start+len(out)), Lines: lines}
+		c.Methods = []*MethodSpec{{Name: "M0", Src: tNamed(s), Tgt: tNamed(t), Lines: mlines, Fields: map[string]*fieldSet{}}}
+		out = append(out, c)
+	}
+	str, i, i64 := tBasic(bkString), tBasic(bkInt), tBasic(bkInt64)
+	add([]Field{{"Name", str}, {"NAME", str}}, []Field{{"NaMe", str}}, []string{"matchIgnoreCase", "ignoreMissing"}, nil)
+	add([]Field{{"Name", str}, {"NAME", str}}, []Field{{"NaMe", str}}, nil, []string{"matchIgnoreCase", "ignoreMissing"})
+	add([]Field{{"Name", str}, {"NAME", str}}, []Field{{"NaMe", str}, {"Other", i}}, []string{"matchIgnoreCase"}, []string{"ignoreMissing"})
+	add([]Field{{"A", tPtr(i)}}, []Field{{"A", i}}, []string{"ignoreMissing"}, nil)
+	add([]Field{{"A", tSlice(i)}}, []Field{{"A", tSlice(i64)}}, []string{"ignoreMissing", "matchIgnoreCase"}, nil)
+	add([]Field{{"A", tMap(str, i)}}, []Field{{"A", tSlice(i)}}, nil, []string{"ignoreMissing"})
 	return out
 }
